@@ -56,13 +56,21 @@ def gen_case(r):
                 p["default"] = r.choice([-abs(p["default"]), 1e+20, 2.5e+16, 1e-10, 123456789.125])  # negative; repr with exponent (e+20, e-10); many digits
             elif k < 0.26:
                 p["typ"] = r.choice(["Union[int, str]", "List[str]", "Optional[Union[float, str]]"])
-                p["default"] = r.choice(["-7", "0.5", "10", "True", "hello"])
+                p["default"] = r.choice(["-7", "0.5", "10", "True", "hello", "'lead and trail\"", "\"a'", "it's"])  # incl. values that begin with one quote character and end with the other
             elif k < 0.30 and p.get("typ") in ("str", "Optional[str]"):
                 # string defaults that contain, begin or end with quote characters (of the same or of different kinds)
                 p["default"] = r.choice(["it's", 'say "hi"', "'a' or \"b\"", "\"x\" then 'y'", "'single'", '"double"', "'"])
             elif k < 0.36:
                 p["typ"] = r.choice(["Callable", "np.ndarray", "Optional[int]"])
                 p["default"] = "```%s```" % r.choice(["np.zeros(3)", "lambda x: x", "(1, 2)"])
+    # a return entry may carry a default of its own (any type, strings under Union / Optional / Literal types included)
+    if ir.get("returns") and r.random() < 0.35:
+        rt = ir["returns"]["return_type"]
+        d = G.gen_default(r, rt["typ"], True)
+        if d is None and rt["typ"].startswith(("Union[", "List[")):
+            d = r.choice(["ok", "done"])
+        if d is not None:
+            rt["default"] = d
     # descriptions with the punctuation the scanners split on (colon, comma, semicolon, dash, parentheses, quotes, slash)
     for n, p in list(ir["params"].items()) + (list(ir["returns"].items()) if ir.get("returns") else []):
         if r.random() < 0.15 and "doc" in p:
@@ -141,11 +149,22 @@ def compare(chk, case, r):
         return
     # root-cause marker: a string default that contains a quote character (the emitter's `quote` wraps without escaping);
     # it is attached to every signature of the case, because the damaged line changes how the following entries are read
-    quote_default = any(a["default"] is not None and a["default"][0] == "str" and ("'" in a["default"][1] or '"' in a["default"][1]) for _, a in src["params"])
+    #   "wrapped": some default begins and ends with the same quote character (`quote` leaves it alone, `unquote` strips it: lost in every style);
+    #   "double":  some default contains a double quote (the emitted "..." is handed to literal_eval / ast.parse where the type is str: SyntaxError);
+    #   "single":  single quotes only - these survive on the unchanged code, so no finding carries this value
+    def _qcls(d):
+        if d is None or d[0] != "str" or not ("'" in d[1] or '"' in d[1]):
+            return None
+        v = d[1]
+        if len(v) > 1 and v[0] == v[-1] and v[0] in "'\"":
+            return "wrapped"
+        return "double" if '"' in v else "single"
+    _qs = {_qcls(a["default"]) for _, a in src["params"]} | ({_qcls(src["returns"]["default"])} if src["returns"] else set())
+    quote_default = "wrapped" if "wrapped" in _qs else ("double" if "double" in _qs else ("single" if "single" in _qs else None))
     # second case-level marker: NumPy style with word wrap and a description long enough to be wrapped — the continuation line is read as a
     # new entry (finding C01-numpydoc-wrapped-names); when the wrapped word equals a real parameter's name that parameter is overwritten instead
     np_wrap = bool(style == "numpydoc" and ww and any(a["doc"] and len(a["doc"]) >= 60 for _, a in src["params"]))
-    if np_wrap and not quote_default:
+    if np_wrap:
         class _MarkedW:
             def __init__(self, inner):
                 self.inner = inner
@@ -158,7 +177,7 @@ def compare(chk, case, r):
         chk = _MarkedW(chk)
     kw_doc = next((k for k in ("Raises:", "Returns:", "Args:", "Kwargs:", "Parameters", ":param") for _, a in (list(src["params"]) + ([("r", src["returns"])] if src["returns"] else []))
                    if a["doc"] and k in a["doc"]), None)
-    if kw_doc and not quote_default:
+    if kw_doc:
         class _MarkedK:
             def __init__(self, inner):
                 self.inner = inner
@@ -175,15 +194,18 @@ def compare(chk, case, r):
                 self.inner = inner
 
             def failure(self, sig, what, replay):
-                return self.inner.failure({**sig, "quote_in_str_default": True}, what, replay)
+                return self.inner.failure({**sig, "quote_in_str_default": quote_default}, what, replay)
 
             def __getattr__(self, k):
                 return getattr(self.inner, k)
         chk = _Marked(chk)
+    # root-cause marker: Google reduces a Union return type to its last member (finding C01-google-return-typ); a default carried by that
+    # return entry is then re-read under the member type
+    g_ret_union = bool(style == "google" and src["returns"] and (src["returns"]["typ"] or "").startswith("Union[") and src["returns"]["default"] is not None)
     if "parse" in r:
         wrapped = bool(ww and any(a["doc"] and len(a["doc"]) >= 60 for _, a in src["params"]))
         chk.failure({"kind": "parse-raises", "style": style, "emit_types": et, "exc": r["parse"], "has_none": "none" in kinds, "has_code": "code" in kinds, "docless": docless, "wrapped": wrapped,
-                     **({"quote_in_str_default": True} if quote_default else {})},
+                     **({"quote_in_str_default": quote_default} if quote_default else {}), **({"google_return_union_default": True} if g_ret_union else {})},
                     "parsing the emitted docstring raises %s" % r["parse"], rp)
         return
     v = r["view"]
@@ -214,12 +236,14 @@ def compare(chk, case, r):
         exp = a["default"] if carried else None
         if exp != b["default"]:
             sig = {"kind": "default", "style": style, "entry": ent, "from": kind_of(exp), "to": kind_of(b["default"]), "carried": carried, "has_doc": bool(a["doc"])}
-            if exp is not None and exp[0] == "str" and ("'" in exp[1] or '"' in exp[1]):
-                sig["quote_in_str_default"] = True
+            if quote_default:
+                sig["quote_in_str_default"] = quote_default
             if ww and a["doc"] and len(a["doc"]) >= 60:
                 sig["wrapped"] = True
             if ent == "return":
                 sig["any_param_default"] = any_default
+                if g_ret_union:
+                    sig["google_return_union_default"] = True
             chk.failure(sig, "%s: default %r -> %r (type %r)" % (n, exp, b["default"], a["typ"]), rp)
 
 
@@ -370,6 +394,37 @@ def google_stream(chk, rng, have):
                "correspondence", n_dis == 0 and n_in > n // 20, "%d disagreements, %d in domain" % (n_dis, n_in))
 
 
+def impl_quoting(strs):
+    from cdd.shared.pure_utils import quote, unquote
+
+    return [(quote(x), unquote(x)) for x in strs]
+
+
+def quoting_stream(chk, have):
+    """Doc.quote / Doc.unquote (the objects of quote_unquote, unquote_quote_idem) against pure_utils.quote / unquote on EVERY string of length <= 5 over
+    the quote alphabet (both quote characters, a backtick, a letter, a blank) - deterministic, independent of the seed"""
+    import itertools
+
+    alpha = ["'", '"', "`", "a", " "]
+    strs = ["".join(t) for k in range(0, 6) for t in itertools.product(alpha, repeat=k)]
+    real = core.guarded_map(impl_quoting, [strs], 60.0)[0]
+    if not have or not isinstance(real, list):
+        return
+    mq = core.model_batch([{"op": "c01.quote", "s": x} for x in strs])
+    mu = core.model_batch([{"op": "c01.unquote", "s": x} for x in strs])
+    n_dis = 0
+    for x, (rq, ru), a, b in zip(strs, real, mq, mu):
+        chk.count(("quoting", x), len(x) >= 2)
+        if rq != a.get("r"):
+            n_dis += 1
+            chk.disagreement("C01 correspondence: Doc.quote = pure_utils.quote", {"s": x}, rq, a.get("r"))
+        if ru != b.get("r"):
+            n_dis += 1
+            chk.disagreement("C01 correspondence: Doc.unquote = pure_utils.unquote", {"s": x}, ru, b.get("r"))
+    chk.oblige("correspondence: Doc.quote / Doc.unquote = pure_utils.quote / unquote on all %d strings of length <= 5 over the quote alphabet" % len(strs), "correspondence", n_dis == 0,
+               "%d disagreements" % n_dis)
+
+
 def whole_stream(chk, rng, have):
     n = 1500 if chk.quick else 20000
     cases = [(gen_whole(rng), rng.random() < 0.7, rng.random() < 0.5, rng.random() < 0.6) for _ in range(n)]
@@ -463,6 +518,7 @@ def run(chk: core.Check) -> int:
     chk.oblige("correspondence: Doc.parseRest = cdd.docstring.parse.docstring (view) on %d emitted ReST docstrings (%d outside the model)" % (len(preqs), n_pout),
                "correspondence", n_dis == 0 and have, "%d disagreements" % n_dis)
     # ---- the whole-docstring theorem's prediction against the real code --------------------------------------------
+    quoting_stream(chk, have)
     whole_stream(chk, rng, have)
     google_stream(chk, rng, have)
     # ---- value level: extract_default on description lines ------------------------------------------------------
